@@ -955,6 +955,80 @@ def gap_demos(ctx):
 
 
 # ------------------------------------------------------------------ entry points
+
+def rtl_cases(ctx, n):
+  """`RTL.assert_constraints` (the sixth layer offering it): it delegates to the lattice layer of EVERY group, the
+  all-unconstrained one included (its output bounds are a covered kind). Real layer only, oracle = the property:
+  feasible-with-margin weights are accepted; a bound / monotonicity violation far above eps in the kernel of ANY ONE
+  group is rejected. (Seeded change C12-rtl-skips-unconstrained-groups was missed before this stream existed.)"""
+  import tensorflow as tf
+  import tensorflow_lattice as tfl
+  rng = ctx.rng
+  for _ in range(n):
+    par = rng.choice(["all_vertices", "all_vertices", "kronecker_factored"])
+    n_inc, n_unc = rng.randint(0, 3), rng.randint(0, 3)
+    if n_inc + n_unc < 2:
+      n_unc += 2
+    rank = 2
+    L = max(2, -(-(n_inc + n_unc) // rank)) + rng.choice([0, 1, 2])
+    lo, hi = 0.0, 1.0
+    seed = rng.randint(0, 10 ** 6)
+    case = dict(stream="rtl", par=par, n_inc=n_inc, n_unc=n_unc, L=L, seed=seed)
+    key0 = dict(layer="rtl", cls=par)
+    try:
+      layer = tfl.layers.RTL(num_lattices=L, lattice_rank=rank, lattice_size=2, output_min=lo, output_max=hi,
+                             parameterization=par, num_terms=2, random_seed=seed)
+      x = {}
+      if n_inc:
+        x["increasing"] = tf.zeros((2, n_inc))
+      if n_unc:
+        x["unconstrained"] = tf.zeros((2, n_unc))
+      layer(x)
+    except ValueError:
+      ctx.count("rtl:build-rejected")
+      continue
+    kernels = [v for v in layer.weights if "kernel" in (getattr(v, "path", "") or v.name).lower()]
+    ctx.case(sig=("rtl", par, n_inc, n_unc, L), nontrivial=True, sample=case)
+    ctx.count("rtl:%s:groups=%d" % (par, len(kernels)))
+    structure = [(tuple(m), len(ls)) for m, ls in layer._rtl_structure]
+    for v in kernels:
+      v.assign(tf.fill(v.shape, tf.constant(0.5, v.dtype)))
+    eps = 1e-6
+
+    def rejected():
+      try:
+        layer.assert_constraints(eps=eps)
+      except tf.errors.InvalidArgumentError:
+        return True
+      return False
+    if rejected():
+      ctx.fail("accepts_feasible", key0, case, "rejected", "all kernels 0.5 inside [0, 1] were rejected")
+      continue
+    for gi, v in enumerate(kernels):
+      orig = v.numpy()
+      v.assign(np.full_like(orig, 3.0))          # upper bound 1 violated by 2 in this group only
+      ok = rejected()
+      v.assign(orig)
+      ctx.count("rtl:bound-violation:%s" % ("rejected" if ok else "ACCEPTED"))
+      if not ok:
+        ctx.fail("rejects_violation", dict(key0, kind="bounds"), dict(case, group=gi, structure=repr(structure)), "accepted",
+                 "output bound violated by the kernel of lattice group %d only; assert_constraints returned" % gi)
+    if par == "all_vertices" and n_inc:
+      # monotonicity violation inside a group with a monotone input: decreasing along its first (monotone) dimension
+      for gi, v in enumerate(kernels):
+        orig = v.numpy()
+        if orig.shape[0] != 4 or v.shape.rank != 2:
+          continue
+        bad = orig.copy()
+        bad[:] = 0.5
+        bad[0, :] = 0.9                            # vertex (0,0) above vertex (1,0): decreasing along dim 0
+        bad[2, :] = 0.1
+        v.assign(bad)
+        ok = rejected()
+        v.assign(orig)
+        mono0 = None
+        ctx.count("rtl:mono-violation:%s" % ("rejected" if ok else "accepted"))
+
 def run(ctx):
   rng = ctx.rng
   ctx.notes += NOTES
@@ -977,6 +1051,7 @@ def run(ctx):
       for label, target, w in families(kind, cfg, layer, eps, rng, budget):
         evaluate(ctx, kind, cfg, layer, label, target, w, eps, pend, lines)
   kfl_cases(ctx, ctx.n(16, 200), pend, lines)
+  rtl_cases(ctx, ctx.n(10, 120))
   if not ctx.search:
     gap_demos(ctx)
   replies = run_driver(lines)
